@@ -104,6 +104,9 @@ func addStats(w *WorkerOut, o *RunOut) {
 	c["probe_reader_refused_by_pending_writer"] += o.Stats.ReaderRefuse
 	c["probe_two_tasks_parked_on_same_object"] += o.Stats.SameLockWait
 	c["probe_preempted_between_two_acquisitions_of_one_call"] += o.Stats.MidOpSwitch
+	if o.Stats.AtomicOps > 0 {
+		c["atomic_scheduling_points"] += o.Stats.AtomicOps
+	}
 	if o.Leaked > 0 {
 		c["leaked_tasks"] += o.Leaked
 	}
@@ -120,6 +123,7 @@ func addStats(w *WorkerOut, o *RunOut) {
 
 // TestWorker is the entry point of every mode; the driver selects with VERIF_MODE.
 func TestWorker(t *testing.T) {
+	postT = t
 	mode := os.Getenv("VERIF_MODE")
 	switch mode {
 	case "":
